@@ -2,6 +2,7 @@
  * SPDX-License-Identifier: GPL-3.0-or-later */
 
 #include "pcf.h"
+#include <inttypes.h>
 #include <stdint.h>
 #include <stdio.h>
 #include <stdlib.h>
@@ -107,7 +108,7 @@ write_type(FILE *f, struct pcf_type *type)
 	fprintf(f, "VALUES\n");
 
 	for (struct pcf_value *v = type->values; v != NULL; v = v->hh.next)
-		fprintf(f, "%-4d %s\n", v->value, v->label);
+		fprintf(f, "%-4" PRIi64 " %s\n", v->value, v->label);
 }
 
 static void
@@ -180,11 +181,11 @@ pcf_add_type(struct pcf *pcf, int type_id, const char *label)
 }
 
 struct pcf_value *
-pcf_find_value(struct pcf_type *type, int value)
+pcf_find_value(struct pcf_type *type, int64_t value)
 {
 	struct pcf_value *pcfvalue;
 
-	HASH_FIND_INT(type->values, &value, pcfvalue);
+	HASH_FIND(hh, type->values, &value, sizeof(value), pcfvalue);
 
 	return pcfvalue;
 }
@@ -195,12 +196,12 @@ pcf_find_value(struct pcf_type *type, int value)
  * @return The new pcf_value created
  */
 struct pcf_value *
-pcf_add_value(struct pcf_type *type, int value, const char *label)
+pcf_add_value(struct pcf_type *type, int64_t value, const char *label)
 {
 	struct pcf_value *pcfvalue = pcf_find_value(type, value);
 
 	if (pcfvalue != NULL) {
-		err("PCF value %d already in type %d", value, type->id);
+		err("PCF value %" PRIi64 " already in type %d", value, type->id);
 		return NULL;
 	}
 
@@ -218,7 +219,7 @@ pcf_add_value(struct pcf_type *type, int value, const char *label)
 		return NULL;
 	}
 
-	HASH_ADD_INT(type->values, value, pcfvalue);
+	HASH_ADD(hh, type->values, value, sizeof(pcfvalue->value), pcfvalue);
 
 	type->nvalues++;
 
